@@ -97,30 +97,28 @@ include!("extracted.rs");
 mod harness {
     use super::*;
     fn any_script() -> Script { let b: u8 = kani::any(); kani::assume(b < 3); Script(b) }
-    fn any_out() -> CellOutput { CellOutput { lock: any_script(), type_: ScriptOpt(if kani::any() { Some(any_script()) } else { None }) } }
-    fn any_tx(hash: u8, nin: usize) -> Transaction {
+    fn any_out(with_type: bool) -> CellOutput { CellOutput { lock: any_script(), type_: ScriptOpt(if with_type && kani::any() { Some(any_script()) } else { None }) } }
+    fn any_tx(hash: u8, nin: usize, with_type: bool) -> Transaction {
         let h: u8 = kani::any(); kani::assume(h == 10 || h == 20 || h == 21 || h == 99);
         let idx: u32 = kani::any(); kani::assume(idx < 3);
         let mut ins = SVec::default(); ins.n = nin; ins.a[0] = CellInput { prev: OutPoint { tx_hash: Byte32(h), index: idx } };
-        let mut outs = SVec::default(); outs.n = 1; outs.a[0] = any_out(); outs.a[1] = any_out();
+        let mut outs = SVec::default(); outs.n = 1; outs.a[0] = any_out(with_type); outs.a[1] = any_out(with_type);
         Transaction { hash: Byte32(hash), raw: RawTransaction { inputs: ins, outputs: outs } }
     }
     unsafe fn has(put: bool, k: MKey) -> bool { let mut i = 0; while i < COMMITTED.n { if COMMITTED.ops[i].put == put && COMMITTED.ops[i].k == k { return true; } i += 1; } false }
     unsafe fn has_val(k: MKey, v: MVal) -> bool { let mut i = 0; while i < COMMITTED.n { if COMMITTED.ops[i].put && COMMITTED.ops[i].k == k && COMMITTED.ops[i].v == v { return true; } i += 1; } false }
     unsafe fn count_cell_ops(put: bool) -> usize { let mut c = 0; let mut i = 0; while i < COMMITTED.n { if COMMITTED.ops[i].put == put { if let MKey::Cell(..) = COMMITTED.ops[i].k { c += 1; } } i += 1; } c }
-    #[kani::proof]
-    #[kani::unwind(30)]
-    fn filter_block_step() {
+    fn filter_block_step<const WITH_TYPE: bool>() {
         let bn: u64 = kani::any();
         let gen_bn: u64 = kani::any(); let gen_ti: u32 = kani::any();
         kani::assume(gen_bn < bn);
-        let mut prev = any_tx(10, 0);
+        let mut prev = any_tx(10, 0, WITH_TYPE);
         let st = Storage {
             scripts: [ScriptStatus { script: Script(1), script_type: ScriptType::Lock, block_number: 0 }, ScriptStatus { script: Script(2), script_type: ScriptType::Type, block_number: 0 }],
             stored: [(Byte32(10), gen_bn, gen_ti, prev)],
         };
-        let t0 = any_tx(20, 1);
-        let t1 = any_tx(21, 1);
+        let t0 = any_tx(20, 1, WITH_TYPE);
+        let t1 = any_tx(21, 1, WITH_TYPE);
         let ntx: usize = 2;
         let mut txs = SVec::default(); txs.n = ntx; txs.a[0] = t0; txs.a[1] = t1;
         let block = Block { header: Header { raw: RawHeader { number: bn } }, hash: Byte32(7), txs };
@@ -159,4 +157,6 @@ mod harness {
             kani::cover!(expect_dels == 2 && expect_puts >= 1, "two spends and a new cell"); kani::cover!(expect_dels >= 1 && txs.a[1].raw.inputs.a[0].prev.tx_hash == Byte32(20), "a same-block spend");
         }
     }
+    #[kani::proof] #[kani::unwind(30)] fn filter_block_lock_only() { filter_block_step::<false>(); }
+    #[kani::proof] #[kani::unwind(30)] fn filter_block_lock_and_type() { filter_block_step::<true>(); }
 }
